@@ -108,7 +108,7 @@ def run_batch(chk: Check, drv: Driver, prepared, n_inputs: int, real: bool, back
             if out[0] != "ok":
                 chk.violation(f"real kernel call raised {out[1]}: {out[2]}", pr.case(sizes, ins))
                 continue
-            raw = kernels.Raw(*out[1:])
+            raw = kernels.Raw(*out[1:6])
             ok = judge(chk, pr, sizes, ins, raw, backend)
             mraw = machine_raw.get(id(ins))
             if ok and mraw is not None and (mraw.levels != raw.levels or mraw.vals != raw.vals):
